@@ -5,7 +5,7 @@
    is never a panic, and it does not depend on the decoder state (so the "objects of a block" that
    C06 and C09 speak of are a function of the block alone). *)
 From Coq Require Import ZArith List Bool.
-From Verif Require Import Framing.Model Framing.Valid C06.Spec C06.Proofs C06.ProofsDamage C06.InBlock.
+From Verif Require Import Framing.Model Framing.Valid Framing.Bytes C06.Spec C06.Proofs C06.ProofsDamage C06.InBlock.
 From Verif Require Pbf.Tree Pbf.Model Pbf.ProofsNoPanic Pbf.ProofsIndep.
 Import ListNotations.
 
@@ -91,3 +91,28 @@ Proof.
   exists DmgInBlock. split; [unfold all_damages; cbn; tauto|].
   cbn [has_damage]. rewrite Hr, He, Hp, (decode_tree_damaged c st m D). reflexivity.
 Qed.
+
+(* ---- every byte string (Framing/Bytes.v b_scan_total) with the block decoder of layer L1 ---- *)
+(* the Unmarshal oracles: ANY functions of the bytes such that the payload of a data block is what
+   a worker in SOME decoder state makes of SOME message tree, and that of a header block is what
+   decodeOSMHeader answers *)
+Definition parses_trees (c : L1.cfg) (parse_blob : btype -> list Z -> blobp L1.obj) : Prop :=
+  forall ty bb b, parse_blob ty bb = BlobOk b ->
+    match ty with
+    | TyData => exists st m, b_pay b = PData (decode_tree c st m)
+    | TyHeader => exists h, b_pay b = PHeader h
+    | TyOther => True
+    end.
+
+Theorem every_byte_string_settles : forall c parse_hdr parse_blob,
+  parses_trees c parse_blob ->
+  forall s, out (b_scan parse_hdr parse_blob current s) = Done \/
+            out (b_scan parse_hdr parse_blob current s) = Failed.
+Proof.
+  intros c parse_hdr parse_blob H s. apply b_scan_total.
+  intros ty bb b Pb. specialize (H ty bb b Pb). destruct ty.
+  - destruct H as (h & ->). exact I.
+  - destruct H as (st & m & ->). apply decode_tree_never_panics.
+  - exact I.
+Qed.
+
